@@ -582,7 +582,46 @@ func c20History(g *gen) *history {
 			}
 			p := pick(r, paths)
 			f := state[p]
-			switch c := r.Intn(11); {
+			switch c := r.Intn(12); {
+			case c == 11 && len(f.Rules) > 0: // a rule is replaced IN PLACE by a rule of the OTHER kind with the same name
+				// (recording rule X -> alert X, alert X -> recording rule X): the old rule is removed, the new one does not replace
+				// it (other kind), so its dependants still break.  Providers that have dependants are preferred.
+				var cands []int
+				for i, ru := range f.Rules {
+					if ru.Broken {
+						continue
+					}
+					for _, q := range sortedKeys(state) {
+						for _, d := range state[q].Rules {
+							if d.UID != ru.UID && !d.Broken && ((ru.Kind == "record" && contains(d.Refs, ru.Name)) || (ru.Kind == "alert" && contains(d.AlertRefs, ru.Name))) {
+								cands = append(cands, i)
+							}
+						}
+					}
+				}
+				i := r.Intn(len(f.Rules))
+				if len(cands) > 0 && r.Intn(4) > 0 {
+					i = cands[r.Intn(len(cands))]
+				}
+				if f.Rules[i].Broken {
+					continue
+				}
+				old := f.Rules[i]
+				nr := c20Rule(g, false)
+				nr.Name = old.Name
+				if old.Kind == "record" {
+					nr.Kind = "alert"
+				} else {
+					nr.Kind, nr.For = "record", ""
+				}
+				// the expression was rendered for the kind c20Rule drew; render it again for the final kind
+				nr.Refs, nr.AlertRefs, nr.NameRefs = nil, nil, nil
+				c20Expr(r, &nr, false)
+				f = f.clone()
+				f.Rules[i] = nr
+				state[p] = f
+				ops = append(ops, hOp{Op: "replace-by-other-kind", Path: p, Detail: old.Kind + "->" + nr.Kind + ":" + old.Name})
+				strata["rule-replaced-by-other-kind-same-name"] = true
 			case c == 10: // an unrelated invalid rule appears in the file (rule-level error at HEAD)
 				pos := r.Intn(len(f.Rules) + 1)
 				f = f.clone()
